@@ -173,6 +173,26 @@ func compareIntReal(i int64, r float64) int {
 	return 0
 }
 
+// numericTwin returns the key of the other numeric type that has exactly the
+// same value (INTEGER 2 <-> REAL 2.0), or nil if there is none.
+func numericTwin(k *Key) *Key {
+	switch k.Type {
+	case v1proto.Type_INT:
+		r := float64(k.Int)
+		if compareIntReal(k.Int, r) == 0 {
+			return NewKey(r)
+		}
+	case v1proto.Type_REAL:
+		if k.Real >= -9223372036854775808.0 && k.Real < 9223372036854775808.0 {
+			i := int64(k.Real)
+			if compareIntReal(i, k.Real) == 0 {
+				return NewKey(i)
+			}
+		}
+	}
+	return nil
+}
+
 func orderType(v, v2 *v1proto.SQLiteValue) (*v1proto.SQLiteValue, *v1proto.SQLiteValue, bool) {
 	if typeIndex(v) <= typeIndex(v2) {
 		return v, v2, false
